@@ -181,6 +181,14 @@ func prepC16(p *C16Plan) {
 	if p.Peer.Challenge == "" {
 		p.Peer.Challenge = "1"
 	}
+	// an auxiliary address is a non-empty token (a reduced plan may say otherwise)
+	var aux []string
+	for _, a := range p.Aux {
+		if a != "" && !strings.ContainsAny(a, " \t\r\n|") {
+			aux = append(aux, a)
+		}
+	}
+	p.Aux = aux
 	p.Passwords = map[string]string{}
 	for _, a := range core.SortedKeys(p.PasswordsB) {
 		p.Passwords[a] = strings.NewReplacer("\r", "", "\n", "").Replace(string(p.PasswordsB[a]))
